@@ -64,6 +64,9 @@ pub struct SimDisk {
     pub op_counter: u64,
     /// (virtual ms, durable max index) for every successful flush
     pub flush_ledger: Vec<(u64, u64)>,
+    /// C33: purge calls are judged at the instant they are issued (cluster runs only)
+    pub oracle: Option<crate::oracle::OracleRef>,
+    pub sm_img: Option<crate::sm::SmImageRef>,
 }
 
 pub type DiskRef = Arc<Mutex<SimDisk>>;
@@ -81,6 +84,8 @@ impl SimDisk {
             stats: DiskStats::default(),
             op_counter: 0,
             flush_ledger: Vec::new(),
+            oracle: None,
+            sm_img: None,
         }))
     }
 
@@ -285,6 +290,16 @@ impl LogStore for SimLogStore {
     async fn purge(&self, cutoff_index: LogId) -> Result<(), Error> {
         self.gate(2, "purge").await?;
         self.disk.lock().unwrap().stats.purges += 1;
+        {
+            let (oracle, img, node) = {
+                let d = self.disk.lock().unwrap();
+                (d.oracle.clone(), d.sm_img.clone(), d.node)
+            };
+            if let Some(o) = oracle {
+                let snap = img.and_then(|i| i.lock().unwrap().snapshot_meta.as_ref().map(|m| m.0));
+                o.lock().unwrap().on_purge(node, cutoff_index.index, snap);
+            }
+        }
         self.mutate(DiskOp::Purge(cutoff_index));
         Ok(())
     }
